@@ -113,6 +113,20 @@ chk("C08",
     "machine-checked proof in Coq (crash-prefix induction over IO lists; heap-model round-trip) + translator/fault-injection correspondence",
     "DESIGN.md section 6, C08")
 
+chk("C11",
+    "Coq theorems (exact rationals, linear domain): the evidence the reweighter records at a beta=0 iteration is the "
+    "weighted harmonic mean of the earlier batches' values and stays between their extremes; with the repaired rule "
+    "every recorded warm-up evidence, for every number of prior-sampling iterations, batch sizes and finite counts "
+    "1<=m_k<=n_k, lies between the smallest and largest single-batch fraction and equals the batch's own fraction "
+    "whenever the batch saw a -inf draw; the accumulating rule of the pinned tree and the all--inf batch are refuted "
+    "by computed witnesses. Tie: Gen.Warmup (update expression, guards, replaced fields) + Link; the real sampler "
+    "driven through K warm-up iterations with a likelihood finite on exactly m_k of n draws, recorded logz compared "
+    "with ln of the model's rational values.",
+    "Trusted: Coq kernel/vm_compute; python translator/harness; convergence of the final evidence not carried; the "
+    "zero-finite-draw batch is a listed known finding.",
+    "machine-checked proof in Coq (harmonic-mean bounds by induction over the history) + translator/exact-rational correspondence",
+    "DESIGN.md section 6, C11")
+
 for pid in [f"C{i:02d}" for i in range(1, 21)]:
     if pid not in CHECKS:
         NA[pid] = "check not built yet in this session (planned in DESIGN.md section 6); not claimed"
